@@ -57,6 +57,25 @@ def ev(fn, args):
         l = list(args)
         l.sort(reverse=True, key=lambda s: V.SemVer(s))      # manifest.py:739
         return SEP1.join(l)
+    if fn == 'prepare':
+        base = [a[1:] for a in args if a[:1] == 'd']
+        targets = []
+        for a in args:
+            if a[:1] == 't':
+                f = a[1:].split(SEP2)
+                targets.append((f[0], [x for x in (f[1].split(SEP1) if len(f) > 1 else []) if x]))
+        hl = [a[1:] for a in args if a[:1] == 'h']
+        bl = [a[1:] for a in args if a[:1] == 'b']
+        calls = [a[1:] == 'h' for a in args if a[:1] == 'c']
+        return SEP2.join(r if isinstance(r, str) else SEP1.join(r) for r in run_prepare(base, targets, hl, bl, calls))
+    if fn == 'cfgsession':
+        rest = list(args)
+        k = rest.index(SEP3) if SEP3 in rest else len(rest)
+        calls = []
+        for a in rest[k + 1:]:
+            f = a.split(SEP2)
+            calls.append((f[0], f[1], [x for x in (f[2].split(SEP1) if len(f) > 2 else []) if x]))
+        return SEP1.join(run_cfg_session(rest[:k], calls))
     if fn == 'depseq':
         return SEP1.join(run_depseq(args[0], args[1:])[0])
     if fn == 'api':
@@ -130,6 +149,97 @@ def real_get_cfgs(lines, flags):
     from mesonbuild.mesonlib import MachineChoice
     cd.compilers = {MachineChoice.HOST: {'rust': _Rustc(lines)}}
     return f(stub, MachineChoice.HOST, '')
+
+
+def run_cfg_session(lines, calls):
+    """A sequence of Interpreter._get_cfgs calls on ONE interpreter object with the REAL RustCompiler
+    class (and so its real lru_cache on get_cfgs); only the rustc process is replaced.  A call is
+    (key, condition, rust_args); key = "h:<subproject>" or "b:<subproject>"; rust_args belong to the
+    key (they are an option of that machine/subproject)."""
+    from unittest import mock
+    from mesonbuild.compilers import rust as rustmod
+    from mesonbuild.compilers.rust import RustCompiler
+    from mesonbuild.mesonlib import MachineChoice
+    flags_of = {}
+    for key, _, flags in calls:
+        flags_of.setdefault(key, list(flags))
+
+    class OptStore:
+        def get_value_for(self, key, subproject=None):
+            m = 'h' if key.machine is MachineChoice.HOST else 'b'
+            return list(flags_of.get('%s:%s' % (m, key.subproject or ''), []))
+
+    def fake_popen(cmd, *a, **kw):
+        st = _Stub(); st.returncode = 0
+        return st, ''.join(l + '\n' for l in lines), ''
+    out = []
+    with mock.patch.object(rustmod, 'Popen_safe_logged', fake_popen):
+        rustc = RustCompiler.__new__(RustCompiler)
+        rustc.exelist = ['rustc']
+        rustc.exelist_no_ccache = ['rustc']
+        cd = _Stub()
+        cd.compilers = {m: {'rust': rustc} for m in MachineChoice}
+        cd.optstore = OptStore()
+        interp = Interpreter.__new__(Interpreter)
+        interp.environment = _Stub()
+        interp.environment.coredata = cd
+        for key, cond, _ in calls:
+            machine = MachineChoice.HOST if key[:1] == 'h' else MachineChoice.BUILD
+            try:
+                out.append(T(C.eval_cfg(cond, interp._get_cfgs(machine, key[2:]))))
+            except Exception as e:
+                out.append('EXC:' + type(e).__name__)
+    return out
+
+
+def run_prepare(base, targets, host_lines, build_lines, calls):
+    """Interpreter._prepare_package (interpreter.py:572-601) on ONE PackageState built by
+    Manifest.from_raw, for a sequence of machines, with real RustCompiler objects (one per machine,
+    rustc process mocked) and _add_dependency replaced by a recorder.  Returns per call the list of
+    dependency names handed to _add_dependency (or 'EXC:<class>')."""
+    from unittest import mock
+    from mesonbuild.cargo.interpreter import PackageState, PackageKey
+    from mesonbuild.compilers import rust as rustmod
+    from mesonbuild.compilers.rust import RustCompiler
+    from mesonbuild.mesonlib import MachineChoice
+    raw = {'package': {'name': 'foo', 'version': '1.0.0'}, 'dependencies': {n: '1' for n in base},
+           'target': {c: {'dependencies': {n: '1' for n in ds}} for c, ds in targets}}
+    lines = {'HOST': host_lines, 'BUILD': build_lines}
+
+    def fake_logged(cmd, *a, **k):
+        st = _Stub(); st.returncode = 0
+        return st, ''.join(l + '\n' for l in lines[cmd[0].split('-')[1]]), ''
+
+    def fake_popen(cmd, *a, **k):
+        st = _Stub(); st.returncode = 0
+        return st, 'rustc 1.80.0\nhost: no-such-triple\n', ''
+
+    class OptStore:
+        def get_value_for(self, key, subproject=None): return []
+    out = []
+    with mock.patch.object(rustmod, 'Popen_safe_logged', fake_logged), mock.patch.object(rustmod, 'Popen_safe', fake_popen):
+        m = M.Manifest.from_raw(raw, 'Cargo.toml')
+        pkg = PackageState(m)
+        it = Interpreter.__new__(Interpreter)
+        cd = _Stub()
+        cd.compilers = {}
+        for mm in MachineChoice:
+            r = RustCompiler.__new__(RustCompiler)
+            r.exelist = ['rustc-' + mm.name]; r.exelist_no_ccache = r.exelist; r.for_machine = mm
+            cd.compilers[mm] = {'rust': r}
+        cd.optstore = OptStore()
+        it.environment = _Stub(); it.environment.coredata = cd
+        it.packages = {PackageKey('foo', m.package.api): pkg}
+        rec = []
+        it._add_dependency = lambda pkg, depname, machine: rec.append(depname)
+        for host in calls:
+            del rec[:]
+            try:
+                it._prepare_package(pkg, MachineChoice.HOST if host else MachineChoice.BUILD)
+                out.append(list(rec))
+            except Exception as e:
+                out.append('EXC:' + type(e).__name__)
+    return out
 
 
 def r_api_call(thunk):
@@ -558,6 +668,48 @@ def oracle(grp):
         if obs != ref:
             k = next(i for i, (a, b) in enumerate(zip(obs, ref)) if a != b)
             add('dep_state', req=r['req'], ops=r['ops'], read_index=k, expected=ref, got=obs)
+    # (9) sessions of _get_cfgs calls: an option is set for a call iff rustc printed it or THIS
+    #     (machine, subproject) passed it with --cfg
+    for r in grp.get('cfgsession', []):
+        lines = [n if v is None else '%s="%s"' % (n, v) for n, v in r['rustc']]
+        calls = []
+        for c in r['calls']:
+            own = r['own'][c['key']]
+            flags = []
+            for n, v in own:
+                flags += r.get('filler', []) + ['--cfg', n if v is None else '%s="%s"' % (n, v)]
+            calls.append((c['key'], 'cfg(' + pr_cfg(c['ast'], c.get('sp', 0)) + ')', flags))
+        got = run_cfg_session(lines, calls)
+        for i, (c, g) in enumerate(zip(r['calls'], got)):
+            opts = r['rustc'] + r['own'][c['key']]
+            exp = T(sem_opts(c['ast'], opts))
+            if g != exp:
+                add('cfg_session', rustc_cfg=lines, calls=[[k, e, f] for k, e, f in calls], call_index=i, expected=exp, got=g,
+                    multivalued=multi_valued(c['ast'], opts))
+                break
+    # (10) _prepare_package: a target-specific dependency is required for a machine iff its
+    #      condition holds for THAT machine (plus the unconditional ones)
+    for r in grp.get('prepare', []):
+        targets = [('cfg(' + pr_cfg(t['ast'], 0) + ')', t['deps']) for t in r['targets']]
+        hl = [n if v is None else '%s="%s"' % (n, v) for n, v in r['host']]
+        bl = [n if v is None else '%s="%s"' % (n, v) for n, v in r['build']]
+        got = run_prepare(r['base'], targets, hl, bl, r['calls'])
+        seen = set()
+        for i, (host, g) in enumerate(zip(r['calls'], got)):
+            if host in seen:
+                exp = set()
+            else:
+                opts = r['host'] if host else r['build']
+                exp = set(r['base'])
+                for t in r['targets']:
+                    if sem_opts(t['ast'], opts):
+                        exp |= set(t['deps'])
+            seen.add(host)
+            if isinstance(g, str) or set(g) != exp:
+                add('prepare', base=r['base'], targets=targets, host_cfg=hl, build_cfg=bl, calls=['h' if c else 'b' for c in r['calls']],
+                    call_index=i, expected=sorted(exp), got=g if isinstance(g, str) else sorted(g),
+                    leak=(not isinstance(g, str)) and set(g) > exp and i > 0)
+                break
     return fails
 
 
